@@ -57,6 +57,14 @@ func WithObjectHeaderBinary(b []byte) Option {
 	}
 }
 
+// WithRequestXHeaders sets the request to take X-headers from when the message
+// itself carries none (binary object header read while processing the request).
+func WithRequestXHeaders(req Request) Option {
+	return func(c *cfg) {
+		c.xHeadersReq = req
+	}
+}
+
 func WithCID(v cid.ID) Option {
 	return func(c *cfg) {
 		c.cnr = v
